@@ -5,7 +5,8 @@
        (Gen/T_util_misc.v) and the copies inside the kernel files (identical definitions),
      * the translated kernels forward._compute_damping_deriv, forward._euler_damp_qfrc (Gen/kforward.v),
        derivative._qderiv_actuator_passive, derivative.deriv_rne_body2jnt_sparse (Gen/T_derivative.v),
-       derivative._qderiv_tendon_damping, passive._spring_damper_dof_passive,
+       derivative._qderiv_tendon_damping, derivative._qderiv_box_fluid / _deriv_box_fluid,
+       passive._spring_damper_dof_passive,
        passive._spring_damper_tendon_passive (Gen/T_passive.v),
      * the hand models of derivative._qderiv_actuator_passive_vel and forward._actuator_force
        (Model/Deriv.v; tied to the real kernels by the correspondence run of bin/props/C27.py),
@@ -919,4 +920,590 @@ Proof.
     replace (damper_force d p v) with 0 by (unfold damper_force; rewrite poly_force_is_coefficient, Z1, Z2, Z3; ring).
     rewrite Rmult_0_r.
     destruct hs; simpl negb; simpl andb; cbv iota; simpl app; simpl wadded; rewrite ?Z.eqb_refl; simpl; ring.
+Qed.
+
+(* ===== 6. inertia-box fluid force derivative ===== *)
+
+(* ---- derivative._qderiv_box_fluid ---- *)
+Section BoxKernel.
+  Variables (w f e : Z) (opt_timestep : Z -> R) (opt_wind : Z -> list R) (opt_density opt_viscosity : Z -> R)
+            (integ : Z) (body_parentid body_rootid : Z -> Z) (body_mass : Z -> Z -> R) (body_inertia : Z -> Z -> list R)
+            (dof_bodyid body_fluid_box_adr : Z -> Z) (isanc M_elemid : Z -> Z -> Z)
+            (xipos ximat subtree_com cdof cvel : Z -> Z -> list R) (Mi Mj : Z -> Z) (qDeriv_out : Z -> Z -> R)
+            (orc : nat -> Z) (s0 s1 s2 s3 s4 s5 : Z).
+  Definition box_ws := TD.k__qderiv_box_fluid w f e opt_timestep opt_wind opt_density opt_viscosity integ body_parentid
+      body_rootid body_mass body_inertia dof_bodyid body_fluid_box_adr isanc M_elemid xipos ximat subtree_com cdof cvel
+      Mi Mj qDeriv_out orc s0 s1 s2 s3 s4 s5.
+  Let body := body_fluid_box_adr f.
+  Let i := Mi e. Let j := Mj e. Let madr := M_elemid i j.
+  Let density := opt_density (Z.rem w s1). Let viscosity := opt_viscosity (Z.rem w s2).
+  Let h := opt_timestep (Z.rem w s3).
+  (* local velocity of the body (angular ; linear minus wind), as the kernel forms it *)
+  Definition box_lvel : list R :=
+    let b_imat_T := mtranspose 3 3 (ximat w body) in
+    let vs := cvel w body in
+    let ang := [vget vs 0; vget vs 1; vget vs 2] in
+    let lin := [vget vs 3; vget vs 4; vget vs 5] in
+    let lin_com := vsub lin (vcross (vsub (xipos w body) (subtree_com w (body_rootid body))) ang) in
+    mat_vec 3 3 b_imat_T ang ++ vsub (mat_vec 3 3 b_imat_T lin_com) (mat_vec 3 3 b_imat_T (opt_wind (Z.rem w s0))).
+  Definition box_B : list R :=
+    TD._deriv_box_fluid integ body_mass body_inertia w body box_lvel density viscosity s4 s5.
+  Definition box_J (dof : Z) : list R :=
+    TD._get_jac_column_local body_parentid body_rootid dof_bodyid subtree_com cdof (xipos w body) body dof w (ximat w body).
+
+  Hypothesis Hmadr : (0 <= madr)%Z.
+  Hypothesis Hbody : dof_bodyid i <> 0%Z.
+  Hypothesis Hanc : isanc body i <> 0%Z.
+
+  (* a medium is present (density > 0 OR viscosity > 0): the task adds -h * J_i^T B J_j *)
+  Theorem qderiv_box_fluid_write :
+    (0 < density \/ 0 < viscosity) ->
+    wadded box_ws "qDeriv_out" [w; madr] = - (vdot (box_J i) (mat_vec 6 6 box_B (box_J j)) * h).
+  Proof.
+    intro Hmed. unfold box_ws, TD.k__qderiv_box_fluid. cbv zeta.
+    fold body. fold i. fold j. fold madr.
+    replace (Z.ltb madr 0) with false by (symmetry; apply Z.ltb_ge; lia).
+    replace (Z.eqb (dof_bodyid i) 0) with false by (symmetry; apply Z.eqb_neq; exact Hbody).
+    replace (Z.eqb (isanc body i) 0) with false by (symmetry; apply Z.eqb_neq; exact Hanc).
+    fold density. fold viscosity. fold h.
+    replace (sleb density (sofZ 0) && sleb viscosity (sofZ 0)) with false.
+    2:{ symmetry. apply andb_false_iff. destruct Hmed; [left | right]; apply Rleb_false; assumption. }
+    change (TD._deriv_box_fluid integ body_mass body_inertia w body _ density viscosity s4 s5) with box_B.
+    change (TD._get_jac_column_local body_parentid body_rootid dof_bodyid subtree_com cdof (xipos w body) body i w (ximat w body)) with (box_J i).
+    change (TD._get_jac_column_local body_parentid body_rootid dof_bodyid subtree_com cdof (xipos w body) body j w (ximat w body)) with (box_J j).
+    set (contrib := smul (vdot (box_J i) (mat_vec 6 6 box_B (box_J j))) h).
+    change (- (vdot (box_J i) (mat_vec 6 6 box_B (box_J j)) * h)) with (- contrib).
+    destruct (sneb contrib (sofZ 0)) eqn:E.
+    - simpl app. simpl wadded. rewrite !Z.eqb_refl. simpl. cbn [sneg ScalarR]. ring.
+    - simpl. unfold sneb in E. apply negb_false_iff in E. change (Reqb contrib 0 = true) in E. apply Reqb_true in E. rewrite E. ring.
+  Qed.
+
+  (* no medium: nothing is written *)
+  Theorem qderiv_box_fluid_nomedium : density <= 0 -> viscosity <= 0 -> box_ws = [].
+  Proof.
+    intros Hd Hv. unfold box_ws, TD.k__qderiv_box_fluid. cbv zeta.
+    fold body. fold i. fold j. fold madr.
+    replace (Z.ltb madr 0) with false by (symmetry; apply Z.ltb_ge; lia).
+    replace (Z.eqb (dof_bodyid i) 0) with false by (symmetry; apply Z.eqb_neq; exact Hbody).
+    replace (Z.eqb (isanc body i) 0) with false by (symmetry; apply Z.eqb_neq; exact Hanc).
+    fold density. fold viscosity.
+    replace (sleb density (sofZ 0) && sleb viscosity (sofZ 0)) with true; [reflexivity|].
+    symmetry. apply andb_true_iff. split; apply Rleb_true; assumption.
+  Qed.
+End BoxKernel.
+
+
+
+(* ---- inertia-box fluid force: B = _deriv_box_fluid is the Jacobian of passive's local force ---- *)
+(* the source's constant wp.static(-3.0 * wp.pi) as the translator emits it (binary64, not -3*PI) *)
+Definition lit3pi : R := IZR (-471238898038469) / IZR 50000000000000.
+
+(* diagonal entry c of the 6x6 local derivative; k13 stands for 1/3, k3pi for 3*PI *)
+Definition Bdiag (k13 k3pi b0 b1 b2 a rho nu : R) (c : Z) : R :=
+  let diam := (b0 + b1 + b2) * k13 in
+  let vis := if sgtb nu (sofZ 0) then (if (c <? 3)%Z then - PI * diam * diam * diam * nu else - k3pi * diam * nu) else 0 in
+  let den := if sgtb rho (sofZ 0) then
+      (if (c =? 0)%Z then rho * b0 * (b1*b1*b1*b1 + b2*b2*b2*b2) * Rabs a / 32
+       else if (c =? 1)%Z then rho * b1 * (b0*b0*b0*b0 + b2*b2*b2*b2) * Rabs a / 32
+       else if (c =? 2)%Z then rho * b2 * (b0*b0*b0*b0 + b1*b1*b1*b1) * Rabs a / 32
+       else if (c =? 3)%Z then rho * b1 * b2 * Rabs a
+       else if (c =? 4)%Z then rho * b0 * b2 * Rabs a
+       else rho * b0 * b1 * Rabs a) else 0 in
+  vis - den.
+
+(* _deriv_box_fluid with its three tests abstracted (same text as Gen/T_derivative.v; the equality
+   below is checked by conversion, so any change of the source breaks it) *)
+Definition box_B_model (bn br bs : bool) (body_mass : Z -> Z -> R) (body_inertia : Z -> Z -> list R) (worldid bodyid : Z) (lvel : list R) (density viscosity : R) (body_mass__shape0 body_inertia__shape0 : Z) : list R :=
+  let B_ := (vconst 36 (sofZ (0)%Z)) in
+  let mass := (body_mass (Z.rem worldid body_mass__shape0) bodyid) in
+  let inertia := (body_inertia (Z.rem worldid body_inertia__shape0) bodyid) in
+  let scl := (sdiv (sofZ (6)%Z) mass) in
+  let box := [(ssqrt (smul (smax (slit (1)%Z (1000000000000000)%Z) (ssub (sadd (vget inertia (1)%Z) (vget inertia (2)%Z)) (vget inertia (0)%Z))) scl)); (ssqrt (smul (smax (slit (1)%Z (1000000000000000)%Z) (ssub (sadd (vget inertia (0)%Z) (vget inertia (2)%Z)) (vget inertia (1)%Z))) scl)); (ssqrt (smul (smax (slit (1)%Z (1000000000000000)%Z) (ssub (sadd (vget inertia (0)%Z) (vget inertia (1)%Z)) (vget inertia (2)%Z))) scl))] in
+  let B_ := (
+    if bn then
+    let diam := (smul (sadd (sadd (vget box (0)%Z) (vget box (1)%Z)) (vget box (2)%Z)) (slit (3333333333333333)%Z (10000000000000000)%Z)) in
+    let visc_rot := (smul (smul (smul (smul (sneg spi) diam) diam) diam) viscosity) in
+    let B_ := mset 6 B_ (0)%Z (0)%Z (sadd (mget 6 B_ (0)%Z (0)%Z) visc_rot) in
+    let B_ := mset 6 B_ (1)%Z (1)%Z (sadd (mget 6 B_ (1)%Z (1)%Z) visc_rot) in
+    let B_ := mset 6 B_ (2)%Z (2)%Z (sadd (mget 6 B_ (2)%Z (2)%Z) visc_rot) in
+    let visc_lin := (smul (smul (slit (-471238898038469)%Z (50000000000000)%Z) diam) viscosity) in
+    let B_ := mset 6 B_ (3)%Z (3)%Z (sadd (mget 6 B_ (3)%Z (3)%Z) visc_lin) in
+    let B_ := mset 6 B_ (4)%Z (4)%Z (sadd (mget 6 B_ (4)%Z (4)%Z) visc_lin) in
+    let B_ := mset 6 B_ (5)%Z (5)%Z (sadd (mget 6 B_ (5)%Z (5)%Z) visc_lin) in
+    B_
+    else
+    B_) in
+  let B_ := (
+    if br then
+    let term0 := (sadd (smul (smul (smul (vget box (1)%Z) (vget box (1)%Z)) (vget box (1)%Z)) (vget box (1)%Z)) (smul (smul (smul (vget box (2)%Z) (vget box (2)%Z)) (vget box (2)%Z)) (vget box (2)%Z))) in
+    let term1 := (sadd (smul (smul (smul (vget box (0)%Z) (vget box (0)%Z)) (vget box (0)%Z)) (vget box (0)%Z)) (smul (smul (smul (vget box (2)%Z) (vget box (2)%Z)) (vget box (2)%Z)) (vget box (2)%Z))) in
+    let term2 := (sadd (smul (smul (smul (vget box (0)%Z) (vget box (0)%Z)) (vget box (0)%Z)) (vget box (0)%Z)) (smul (smul (smul (vget box (1)%Z) (vget box (1)%Z)) (vget box (1)%Z)) (vget box (1)%Z))) in
+    let inv_32 := (slit (1)%Z (32)%Z) in
+    let B_ := mset 6 B_ (0)%Z (0)%Z (ssub (mget 6 B_ (0)%Z (0)%Z) (smul (smul (smul (smul density (vget box (0)%Z)) term0) (sabs (vget lvel (0)%Z))) inv_32)) in
+    let B_ := mset 6 B_ (1)%Z (1)%Z (ssub (mget 6 B_ (1)%Z (1)%Z) (smul (smul (smul (smul density (vget box (1)%Z)) term1) (sabs (vget lvel (1)%Z))) inv_32)) in
+    let B_ := mset 6 B_ (2)%Z (2)%Z (ssub (mget 6 B_ (2)%Z (2)%Z) (smul (smul (smul (smul density (vget box (2)%Z)) term2) (sabs (vget lvel (2)%Z))) inv_32)) in
+    let B_ := mset 6 B_ (3)%Z (3)%Z (ssub (mget 6 B_ (3)%Z (3)%Z) (smul (smul (smul density (vget box (1)%Z)) (vget box (2)%Z)) (sabs (vget lvel (3)%Z)))) in
+    let B_ := mset 6 B_ (4)%Z (4)%Z (ssub (mget 6 B_ (4)%Z (4)%Z) (smul (smul (smul density (vget box (0)%Z)) (vget box (2)%Z)) (sabs (vget lvel (4)%Z)))) in
+    let B_ := mset 6 B_ (5)%Z (5)%Z (ssub (mget 6 B_ (5)%Z (5)%Z) (smul (smul (smul density (vget box (0)%Z)) (vget box (1)%Z)) (sabs (vget lvel (5)%Z)))) in
+    B_
+    else
+    B_) in
+  let B_ := (
+    if bs then
+    let B_ := (vscale (slit (1)%Z (2)%Z) (vadd B_ (mtranspose 6 6 B_))) in
+    B_
+    else
+    B_) in
+  B_.
+
+Lemma box_B_model_eq integ bm bi w bd lv rho nu sh0 sh1 :
+  TD._deriv_box_fluid integ bm bi w bd lv rho nu sh0 sh1
+  = box_B_model (sgtb nu (sofZ 0)) (sgtb rho (sofZ 0)) (Z.eqb integ 3) bm bi w bd lv rho nu sh0 sh1.
+Proof. reflexivity. Qed.
+
+Ltac zred :=
+  repeat match goal with
+    | |- context [Z.ltb ?a ?b] => let v := eval compute in (Z.ltb a b) in change (Z.ltb a b) with v
+    | |- context [Z.eqb ?a ?b] => let v := eval compute in (Z.eqb a b) in change (Z.eqb a b) with v
+    end; cbv iota.
+
+Lemma is_derive_lin_abs (c1 c2 a : R) : is_derive (fun x => c1 * x + c2 * (x * Rabs x)) a (c1 + c2 * (2 * Rabs a)).
+Proof.
+  apply (is_derive_plus (fun x => c1 * x) (fun x => c2 * (x * Rabs x))).
+  - ad.
+  - apply (is_derive_scal (fun x => x * Rabs x) a c2 (2 * Rabs a)). apply is_derive_x_abs.
+Qed.
+
+Lemma Rpower_3 (x : R) : 0 < x -> Rpower x 3 = x * x * x.
+Proof. intro H. replace 3 with (INR 3) by (rewrite INR_IZR_INZ; reflexivity). rewrite Rpower_pow by exact H. simpl. ring. Qed.
+Lemma Rpower_4 (x : R) : 0 < x -> Rpower x 4 = x * x * x * x.
+Proof. intro H. replace 4 with (INR 4) by (rewrite INR_IZR_INZ; reflexivity). rewrite Rpower_pow by exact H. simpl. ring. Qed.
+
+Lemma box_dims_pos (mass : R) (inertia : list R) :
+  0 < mass ->
+  let bx := box_dims mass inertia in 0 < vget bx 0 /\ 0 < vget bx 1 /\ 0 < vget bx 2.
+Proof.
+  intros Hm bx. unfold bx, box_dims. cbv zeta.
+  unfold vget at 1 11 21. simpl nth.
+  repeat split; (apply sqrt_lt_R0; apply Rmult_lt_0_compat; [apply smax_MINV_pos | apply Rdiv_lt_0_compat; [change (0 < 6); lra | exact Hm]]).
+Qed.
+
+Lemma box_B_entry_0 integ (bm : Z -> Z -> R) (bi : Z -> Z -> list R) w bd a0 a1 a2 a3 a4 a5 rho nu sh0 sh1 :
+  let bx := box_dims (bm (Z.rem w sh0) bd) (bi (Z.rem w sh1) bd) in
+  mget 6 (TD._deriv_box_fluid integ bm bi w bd [a0; a1; a2; a3; a4; a5] rho nu sh0 sh1) 0 0
+  = Bdiag third_lit (- lit3pi) (vget bx 0) (vget bx 1) (vget bx 2) a0 rho nu 0.
+Proof.
+  intro bx. rewrite box_B_model_eq. unfold Bdiag.
+  destruct (sgtb nu (sofZ 0)); destruct (sgtb rho (sofZ 0)); destruct (Z.eqb integ 3).
+  - match goal with |- mget 6 ?B 0 0 = _ => assert (E : mget 6 B 0 0 = (1 / 2 * (((0 + - PI * ((vget bx 0 + vget bx 1 + vget bx 2) * third_lit) * ((vget bx 0 + vget bx 1 + vget bx 2) * third_lit) * ((vget bx 0 + vget bx 1 + vget bx 2) * third_lit) * nu) - rho * vget bx 0 * (vget bx 1 * vget bx 1 * vget bx 1 * vget bx 1 + vget bx 2 * vget bx 2 * vget bx 2 * vget bx 2) * Rabs a0 * (1 / 32)) + ((0 + - PI * ((vget bx 0 + vget bx 1 + vget bx 2) * third_lit) * ((vget bx 0 + vget bx 1 + vget bx 2) * third_lit) * ((vget bx 0 + vget bx 1 + vget bx 2) * third_lit) * nu) - rho * vget bx 0 * (vget bx 1 * vget bx 1 * vget bx 1 * vget bx 1 + vget bx 2 * vget bx 2 * vget bx 2 * vget bx 2) * Rabs a0 * (1 / 32))))) by reflexivity; rewrite E end.
+    zred; field.
+  - match goal with |- mget 6 ?B 0 0 = _ => assert (E : mget 6 B 0 0 = ((0 + - PI * ((vget bx 0 + vget bx 1 + vget bx 2) * third_lit) * ((vget bx 0 + vget bx 1 + vget bx 2) * third_lit) * ((vget bx 0 + vget bx 1 + vget bx 2) * third_lit) * nu) - rho * vget bx 0 * (vget bx 1 * vget bx 1 * vget bx 1 * vget bx 1 + vget bx 2 * vget bx 2 * vget bx 2 * vget bx 2) * Rabs a0 * (1 / 32))) by reflexivity; rewrite E end.
+    zred; field.
+  - match goal with |- mget 6 ?B 0 0 = _ => assert (E : mget 6 B 0 0 = (1 / 2 * ((0 + - PI * ((vget bx 0 + vget bx 1 + vget bx 2) * third_lit) * ((vget bx 0 + vget bx 1 + vget bx 2) * third_lit) * ((vget bx 0 + vget bx 1 + vget bx 2) * third_lit) * nu) + (0 + - PI * ((vget bx 0 + vget bx 1 + vget bx 2) * third_lit) * ((vget bx 0 + vget bx 1 + vget bx 2) * third_lit) * ((vget bx 0 + vget bx 1 + vget bx 2) * third_lit) * nu)))) by reflexivity; rewrite E end.
+    zred; field.
+  - match goal with |- mget 6 ?B 0 0 = _ => assert (E : mget 6 B 0 0 = (0 + - PI * ((vget bx 0 + vget bx 1 + vget bx 2) * third_lit) * ((vget bx 0 + vget bx 1 + vget bx 2) * third_lit) * ((vget bx 0 + vget bx 1 + vget bx 2) * third_lit) * nu)) by reflexivity; rewrite E end.
+    zred; field.
+  - match goal with |- mget 6 ?B 0 0 = _ => assert (E : mget 6 B 0 0 = (1 / 2 * ((0 - rho * vget bx 0 * (vget bx 1 * vget bx 1 * vget bx 1 * vget bx 1 + vget bx 2 * vget bx 2 * vget bx 2 * vget bx 2) * Rabs a0 * (1 / 32)) + (0 - rho * vget bx 0 * (vget bx 1 * vget bx 1 * vget bx 1 * vget bx 1 + vget bx 2 * vget bx 2 * vget bx 2 * vget bx 2) * Rabs a0 * (1 / 32))))) by reflexivity; rewrite E end.
+    zred; field.
+  - match goal with |- mget 6 ?B 0 0 = _ => assert (E : mget 6 B 0 0 = (0 - rho * vget bx 0 * (vget bx 1 * vget bx 1 * vget bx 1 * vget bx 1 + vget bx 2 * vget bx 2 * vget bx 2 * vget bx 2) * Rabs a0 * (1 / 32))) by reflexivity; rewrite E end.
+    zred; field.
+  - match goal with |- mget 6 ?B 0 0 = _ => assert (E : mget 6 B 0 0 = (1 / 2 * (0 + 0))) by reflexivity; rewrite E end.
+    zred; field.
+  - match goal with |- mget 6 ?B 0 0 = _ => assert (E : mget 6 B 0 0 = 0) by reflexivity; rewrite E end.
+    zred; field.
+Qed.
+
+
+Lemma box_F_derive_0 (mass : R) (inertia : list R) a0 a1 a2 a3 a4 a5 rho nu :
+  0 < mass ->
+  let bx := box_dims mass inertia in
+  is_derive (fun x => nth 0 (box_fluid_local mass inertia [x; a1; a2] [a3; a4; a5] rho nu) 0) a0
+            (Bdiag (1 / 3) (3 * PI) (vget bx 0) (vget bx 1) (vget bx 2) a0 rho nu 0).
+Proof.
+  intros Hm bx.
+  destruct (box_dims_pos mass inertia Hm) as (P0 & P1 & P2). fold bx in P0, P1, P2.
+  assert (Pd : 0 < (vget bx 0 + vget bx 1 + vget bx 2) / 3) by lra.
+  unfold Bdiag. unfold box_fluid_local.
+  destruct (sgtb nu (sofZ 0)); destruct (sgtb rho (sofZ 0)); zred.
+  - apply (is_derive_ext (fun x => ((- x * Rpower ((vget bx 0 + vget bx 1 + vget bx 2) / 3) 3 * PI * nu) - vget bx 0 * (Rpower (vget bx 1) 4 + Rpower (vget bx 2) 4) * Rabs x * x * (rho / 64)))); [intro x; reflexivity|].
+    apply (is_derive_ext (fun x => (- Rpower ((vget bx 0 + vget bx 1 + vget bx 2) / 3) 3 * PI * nu) * x + (- (vget bx 0 * (Rpower (vget bx 1) 4 + Rpower (vget bx 2) 4) * (rho / 64))) * (x * Rabs x))); [intro x; rring|].
+    match goal with |- is_derive _ ?a ?d => replace d with ((- Rpower ((vget bx 0 + vget bx 1 + vget bx 2) / 3) 3 * PI * nu) + (- (vget bx 0 * (Rpower (vget bx 1) 4 + Rpower (vget bx 2) 4) * (rho / 64))) * (2 * Rabs a)); [apply is_derive_lin_abs|] end.
+    rewrite ?(Rpower_3 _ Pd), ?(Rpower_4 _ P0), ?(Rpower_4 _ P1), ?(Rpower_4 _ P2); field.
+  - apply (is_derive_ext (fun x => (- x * Rpower ((vget bx 0 + vget bx 1 + vget bx 2) / 3) 3 * PI * nu))); [intro x; reflexivity|].
+    apply (is_derive_ext (fun x => (- Rpower ((vget bx 0 + vget bx 1 + vget bx 2) / 3) 3 * PI * nu) * x + 0 * (x * Rabs x))); [intro x; rring|].
+    match goal with |- is_derive _ ?a ?d => replace d with ((- Rpower ((vget bx 0 + vget bx 1 + vget bx 2) / 3) 3 * PI * nu) + 0 * (2 * Rabs a)); [apply is_derive_lin_abs|] end.
+    rewrite ?(Rpower_3 _ Pd), ?(Rpower_4 _ P0), ?(Rpower_4 _ P1), ?(Rpower_4 _ P2); field.
+  - apply (is_derive_ext (fun x => (0 - vget bx 0 * (Rpower (vget bx 1) 4 + Rpower (vget bx 2) 4) * Rabs x * x * (rho / 64)))); [intro x; reflexivity|].
+    apply (is_derive_ext (fun x => 0 * x + (- (vget bx 0 * (Rpower (vget bx 1) 4 + Rpower (vget bx 2) 4) * (rho / 64))) * (x * Rabs x))); [intro x; rring|].
+    match goal with |- is_derive _ ?a ?d => replace d with (0 + (- (vget bx 0 * (Rpower (vget bx 1) 4 + Rpower (vget bx 2) 4) * (rho / 64))) * (2 * Rabs a)); [apply is_derive_lin_abs|] end.
+    rewrite ?(Rpower_3 _ Pd), ?(Rpower_4 _ P0), ?(Rpower_4 _ P1), ?(Rpower_4 _ P2); field.
+  - apply (is_derive_ext (fun x => 0)); [intro x; reflexivity|].
+    apply (is_derive_ext (fun x => 0 * x + 0 * (x * Rabs x))); [intro x; rring|].
+    match goal with |- is_derive _ ?a ?d => replace d with (0 + 0 * (2 * Rabs a)); [apply is_derive_lin_abs|] end.
+    rewrite ?(Rpower_3 _ Pd), ?(Rpower_4 _ P0), ?(Rpower_4 _ P1), ?(Rpower_4 _ P2); field.
+Qed.
+
+
+Lemma box_B_entry_1 integ (bm : Z -> Z -> R) (bi : Z -> Z -> list R) w bd a0 a1 a2 a3 a4 a5 rho nu sh0 sh1 :
+  let bx := box_dims (bm (Z.rem w sh0) bd) (bi (Z.rem w sh1) bd) in
+  mget 6 (TD._deriv_box_fluid integ bm bi w bd [a0; a1; a2; a3; a4; a5] rho nu sh0 sh1) 1 1
+  = Bdiag third_lit (- lit3pi) (vget bx 0) (vget bx 1) (vget bx 2) a1 rho nu 1.
+Proof.
+  intro bx. rewrite box_B_model_eq. unfold Bdiag.
+  destruct (sgtb nu (sofZ 0)); destruct (sgtb rho (sofZ 0)); destruct (Z.eqb integ 3).
+  - match goal with |- mget 6 ?B 1 1 = _ => assert (E : mget 6 B 1 1 = (1 / 2 * (((0 + - PI * ((vget bx 0 + vget bx 1 + vget bx 2) * third_lit) * ((vget bx 0 + vget bx 1 + vget bx 2) * third_lit) * ((vget bx 0 + vget bx 1 + vget bx 2) * third_lit) * nu) - rho * vget bx 1 * (vget bx 0 * vget bx 0 * vget bx 0 * vget bx 0 + vget bx 2 * vget bx 2 * vget bx 2 * vget bx 2) * Rabs a1 * (1 / 32)) + ((0 + - PI * ((vget bx 0 + vget bx 1 + vget bx 2) * third_lit) * ((vget bx 0 + vget bx 1 + vget bx 2) * third_lit) * ((vget bx 0 + vget bx 1 + vget bx 2) * third_lit) * nu) - rho * vget bx 1 * (vget bx 0 * vget bx 0 * vget bx 0 * vget bx 0 + vget bx 2 * vget bx 2 * vget bx 2 * vget bx 2) * Rabs a1 * (1 / 32))))) by reflexivity; rewrite E end.
+    zred; field.
+  - match goal with |- mget 6 ?B 1 1 = _ => assert (E : mget 6 B 1 1 = ((0 + - PI * ((vget bx 0 + vget bx 1 + vget bx 2) * third_lit) * ((vget bx 0 + vget bx 1 + vget bx 2) * third_lit) * ((vget bx 0 + vget bx 1 + vget bx 2) * third_lit) * nu) - rho * vget bx 1 * (vget bx 0 * vget bx 0 * vget bx 0 * vget bx 0 + vget bx 2 * vget bx 2 * vget bx 2 * vget bx 2) * Rabs a1 * (1 / 32))) by reflexivity; rewrite E end.
+    zred; field.
+  - match goal with |- mget 6 ?B 1 1 = _ => assert (E : mget 6 B 1 1 = (1 / 2 * ((0 + - PI * ((vget bx 0 + vget bx 1 + vget bx 2) * third_lit) * ((vget bx 0 + vget bx 1 + vget bx 2) * third_lit) * ((vget bx 0 + vget bx 1 + vget bx 2) * third_lit) * nu) + (0 + - PI * ((vget bx 0 + vget bx 1 + vget bx 2) * third_lit) * ((vget bx 0 + vget bx 1 + vget bx 2) * third_lit) * ((vget bx 0 + vget bx 1 + vget bx 2) * third_lit) * nu)))) by reflexivity; rewrite E end.
+    zred; field.
+  - match goal with |- mget 6 ?B 1 1 = _ => assert (E : mget 6 B 1 1 = (0 + - PI * ((vget bx 0 + vget bx 1 + vget bx 2) * third_lit) * ((vget bx 0 + vget bx 1 + vget bx 2) * third_lit) * ((vget bx 0 + vget bx 1 + vget bx 2) * third_lit) * nu)) by reflexivity; rewrite E end.
+    zred; field.
+  - match goal with |- mget 6 ?B 1 1 = _ => assert (E : mget 6 B 1 1 = (1 / 2 * ((0 - rho * vget bx 1 * (vget bx 0 * vget bx 0 * vget bx 0 * vget bx 0 + vget bx 2 * vget bx 2 * vget bx 2 * vget bx 2) * Rabs a1 * (1 / 32)) + (0 - rho * vget bx 1 * (vget bx 0 * vget bx 0 * vget bx 0 * vget bx 0 + vget bx 2 * vget bx 2 * vget bx 2 * vget bx 2) * Rabs a1 * (1 / 32))))) by reflexivity; rewrite E end.
+    zred; field.
+  - match goal with |- mget 6 ?B 1 1 = _ => assert (E : mget 6 B 1 1 = (0 - rho * vget bx 1 * (vget bx 0 * vget bx 0 * vget bx 0 * vget bx 0 + vget bx 2 * vget bx 2 * vget bx 2 * vget bx 2) * Rabs a1 * (1 / 32))) by reflexivity; rewrite E end.
+    zred; field.
+  - match goal with |- mget 6 ?B 1 1 = _ => assert (E : mget 6 B 1 1 = (1 / 2 * (0 + 0))) by reflexivity; rewrite E end.
+    zred; field.
+  - match goal with |- mget 6 ?B 1 1 = _ => assert (E : mget 6 B 1 1 = 0) by reflexivity; rewrite E end.
+    zred; field.
+Qed.
+
+
+Lemma box_F_derive_1 (mass : R) (inertia : list R) a0 a1 a2 a3 a4 a5 rho nu :
+  0 < mass ->
+  let bx := box_dims mass inertia in
+  is_derive (fun x => nth 1 (box_fluid_local mass inertia [a0; x; a2] [a3; a4; a5] rho nu) 0) a1
+            (Bdiag (1 / 3) (3 * PI) (vget bx 0) (vget bx 1) (vget bx 2) a1 rho nu 1).
+Proof.
+  intros Hm bx.
+  destruct (box_dims_pos mass inertia Hm) as (P0 & P1 & P2). fold bx in P0, P1, P2.
+  assert (Pd : 0 < (vget bx 0 + vget bx 1 + vget bx 2) / 3) by lra.
+  unfold Bdiag. unfold box_fluid_local.
+  destruct (sgtb nu (sofZ 0)); destruct (sgtb rho (sofZ 0)); zred.
+  - apply (is_derive_ext (fun x => ((- x * Rpower ((vget bx 0 + vget bx 1 + vget bx 2) / 3) 3 * PI * nu) - vget bx 1 * (Rpower (vget bx 0) 4 + Rpower (vget bx 2) 4) * Rabs x * x * (rho / 64)))); [intro x; reflexivity|].
+    apply (is_derive_ext (fun x => (- Rpower ((vget bx 0 + vget bx 1 + vget bx 2) / 3) 3 * PI * nu) * x + (- (vget bx 1 * (Rpower (vget bx 0) 4 + Rpower (vget bx 2) 4) * (rho / 64))) * (x * Rabs x))); [intro x; rring|].
+    match goal with |- is_derive _ ?a ?d => replace d with ((- Rpower ((vget bx 0 + vget bx 1 + vget bx 2) / 3) 3 * PI * nu) + (- (vget bx 1 * (Rpower (vget bx 0) 4 + Rpower (vget bx 2) 4) * (rho / 64))) * (2 * Rabs a)); [apply is_derive_lin_abs|] end.
+    rewrite ?(Rpower_3 _ Pd), ?(Rpower_4 _ P0), ?(Rpower_4 _ P1), ?(Rpower_4 _ P2); field.
+  - apply (is_derive_ext (fun x => (- x * Rpower ((vget bx 0 + vget bx 1 + vget bx 2) / 3) 3 * PI * nu))); [intro x; reflexivity|].
+    apply (is_derive_ext (fun x => (- Rpower ((vget bx 0 + vget bx 1 + vget bx 2) / 3) 3 * PI * nu) * x + 0 * (x * Rabs x))); [intro x; rring|].
+    match goal with |- is_derive _ ?a ?d => replace d with ((- Rpower ((vget bx 0 + vget bx 1 + vget bx 2) / 3) 3 * PI * nu) + 0 * (2 * Rabs a)); [apply is_derive_lin_abs|] end.
+    rewrite ?(Rpower_3 _ Pd), ?(Rpower_4 _ P0), ?(Rpower_4 _ P1), ?(Rpower_4 _ P2); field.
+  - apply (is_derive_ext (fun x => (0 - vget bx 1 * (Rpower (vget bx 0) 4 + Rpower (vget bx 2) 4) * Rabs x * x * (rho / 64)))); [intro x; reflexivity|].
+    apply (is_derive_ext (fun x => 0 * x + (- (vget bx 1 * (Rpower (vget bx 0) 4 + Rpower (vget bx 2) 4) * (rho / 64))) * (x * Rabs x))); [intro x; rring|].
+    match goal with |- is_derive _ ?a ?d => replace d with (0 + (- (vget bx 1 * (Rpower (vget bx 0) 4 + Rpower (vget bx 2) 4) * (rho / 64))) * (2 * Rabs a)); [apply is_derive_lin_abs|] end.
+    rewrite ?(Rpower_3 _ Pd), ?(Rpower_4 _ P0), ?(Rpower_4 _ P1), ?(Rpower_4 _ P2); field.
+  - apply (is_derive_ext (fun x => 0)); [intro x; reflexivity|].
+    apply (is_derive_ext (fun x => 0 * x + 0 * (x * Rabs x))); [intro x; rring|].
+    match goal with |- is_derive _ ?a ?d => replace d with (0 + 0 * (2 * Rabs a)); [apply is_derive_lin_abs|] end.
+    rewrite ?(Rpower_3 _ Pd), ?(Rpower_4 _ P0), ?(Rpower_4 _ P1), ?(Rpower_4 _ P2); field.
+Qed.
+
+
+Lemma box_B_entry_2 integ (bm : Z -> Z -> R) (bi : Z -> Z -> list R) w bd a0 a1 a2 a3 a4 a5 rho nu sh0 sh1 :
+  let bx := box_dims (bm (Z.rem w sh0) bd) (bi (Z.rem w sh1) bd) in
+  mget 6 (TD._deriv_box_fluid integ bm bi w bd [a0; a1; a2; a3; a4; a5] rho nu sh0 sh1) 2 2
+  = Bdiag third_lit (- lit3pi) (vget bx 0) (vget bx 1) (vget bx 2) a2 rho nu 2.
+Proof.
+  intro bx. rewrite box_B_model_eq. unfold Bdiag.
+  destruct (sgtb nu (sofZ 0)); destruct (sgtb rho (sofZ 0)); destruct (Z.eqb integ 3).
+  - match goal with |- mget 6 ?B 2 2 = _ => assert (E : mget 6 B 2 2 = (1 / 2 * (((0 + - PI * ((vget bx 0 + vget bx 1 + vget bx 2) * third_lit) * ((vget bx 0 + vget bx 1 + vget bx 2) * third_lit) * ((vget bx 0 + vget bx 1 + vget bx 2) * third_lit) * nu) - rho * vget bx 2 * (vget bx 0 * vget bx 0 * vget bx 0 * vget bx 0 + vget bx 1 * vget bx 1 * vget bx 1 * vget bx 1) * Rabs a2 * (1 / 32)) + ((0 + - PI * ((vget bx 0 + vget bx 1 + vget bx 2) * third_lit) * ((vget bx 0 + vget bx 1 + vget bx 2) * third_lit) * ((vget bx 0 + vget bx 1 + vget bx 2) * third_lit) * nu) - rho * vget bx 2 * (vget bx 0 * vget bx 0 * vget bx 0 * vget bx 0 + vget bx 1 * vget bx 1 * vget bx 1 * vget bx 1) * Rabs a2 * (1 / 32))))) by reflexivity; rewrite E end.
+    zred; field.
+  - match goal with |- mget 6 ?B 2 2 = _ => assert (E : mget 6 B 2 2 = ((0 + - PI * ((vget bx 0 + vget bx 1 + vget bx 2) * third_lit) * ((vget bx 0 + vget bx 1 + vget bx 2) * third_lit) * ((vget bx 0 + vget bx 1 + vget bx 2) * third_lit) * nu) - rho * vget bx 2 * (vget bx 0 * vget bx 0 * vget bx 0 * vget bx 0 + vget bx 1 * vget bx 1 * vget bx 1 * vget bx 1) * Rabs a2 * (1 / 32))) by reflexivity; rewrite E end.
+    zred; field.
+  - match goal with |- mget 6 ?B 2 2 = _ => assert (E : mget 6 B 2 2 = (1 / 2 * ((0 + - PI * ((vget bx 0 + vget bx 1 + vget bx 2) * third_lit) * ((vget bx 0 + vget bx 1 + vget bx 2) * third_lit) * ((vget bx 0 + vget bx 1 + vget bx 2) * third_lit) * nu) + (0 + - PI * ((vget bx 0 + vget bx 1 + vget bx 2) * third_lit) * ((vget bx 0 + vget bx 1 + vget bx 2) * third_lit) * ((vget bx 0 + vget bx 1 + vget bx 2) * third_lit) * nu)))) by reflexivity; rewrite E end.
+    zred; field.
+  - match goal with |- mget 6 ?B 2 2 = _ => assert (E : mget 6 B 2 2 = (0 + - PI * ((vget bx 0 + vget bx 1 + vget bx 2) * third_lit) * ((vget bx 0 + vget bx 1 + vget bx 2) * third_lit) * ((vget bx 0 + vget bx 1 + vget bx 2) * third_lit) * nu)) by reflexivity; rewrite E end.
+    zred; field.
+  - match goal with |- mget 6 ?B 2 2 = _ => assert (E : mget 6 B 2 2 = (1 / 2 * ((0 - rho * vget bx 2 * (vget bx 0 * vget bx 0 * vget bx 0 * vget bx 0 + vget bx 1 * vget bx 1 * vget bx 1 * vget bx 1) * Rabs a2 * (1 / 32)) + (0 - rho * vget bx 2 * (vget bx 0 * vget bx 0 * vget bx 0 * vget bx 0 + vget bx 1 * vget bx 1 * vget bx 1 * vget bx 1) * Rabs a2 * (1 / 32))))) by reflexivity; rewrite E end.
+    zred; field.
+  - match goal with |- mget 6 ?B 2 2 = _ => assert (E : mget 6 B 2 2 = (0 - rho * vget bx 2 * (vget bx 0 * vget bx 0 * vget bx 0 * vget bx 0 + vget bx 1 * vget bx 1 * vget bx 1 * vget bx 1) * Rabs a2 * (1 / 32))) by reflexivity; rewrite E end.
+    zred; field.
+  - match goal with |- mget 6 ?B 2 2 = _ => assert (E : mget 6 B 2 2 = (1 / 2 * (0 + 0))) by reflexivity; rewrite E end.
+    zred; field.
+  - match goal with |- mget 6 ?B 2 2 = _ => assert (E : mget 6 B 2 2 = 0) by reflexivity; rewrite E end.
+    zred; field.
+Qed.
+
+
+Lemma box_F_derive_2 (mass : R) (inertia : list R) a0 a1 a2 a3 a4 a5 rho nu :
+  0 < mass ->
+  let bx := box_dims mass inertia in
+  is_derive (fun x => nth 2 (box_fluid_local mass inertia [a0; a1; x] [a3; a4; a5] rho nu) 0) a2
+            (Bdiag (1 / 3) (3 * PI) (vget bx 0) (vget bx 1) (vget bx 2) a2 rho nu 2).
+Proof.
+  intros Hm bx.
+  destruct (box_dims_pos mass inertia Hm) as (P0 & P1 & P2). fold bx in P0, P1, P2.
+  assert (Pd : 0 < (vget bx 0 + vget bx 1 + vget bx 2) / 3) by lra.
+  unfold Bdiag. unfold box_fluid_local.
+  destruct (sgtb nu (sofZ 0)); destruct (sgtb rho (sofZ 0)); zred.
+  - apply (is_derive_ext (fun x => ((- x * Rpower ((vget bx 0 + vget bx 1 + vget bx 2) / 3) 3 * PI * nu) - vget bx 2 * (Rpower (vget bx 0) 4 + Rpower (vget bx 1) 4) * Rabs x * x * (rho / 64)))); [intro x; reflexivity|].
+    apply (is_derive_ext (fun x => (- Rpower ((vget bx 0 + vget bx 1 + vget bx 2) / 3) 3 * PI * nu) * x + (- (vget bx 2 * (Rpower (vget bx 0) 4 + Rpower (vget bx 1) 4) * (rho / 64))) * (x * Rabs x))); [intro x; rring|].
+    match goal with |- is_derive _ ?a ?d => replace d with ((- Rpower ((vget bx 0 + vget bx 1 + vget bx 2) / 3) 3 * PI * nu) + (- (vget bx 2 * (Rpower (vget bx 0) 4 + Rpower (vget bx 1) 4) * (rho / 64))) * (2 * Rabs a)); [apply is_derive_lin_abs|] end.
+    rewrite ?(Rpower_3 _ Pd), ?(Rpower_4 _ P0), ?(Rpower_4 _ P1), ?(Rpower_4 _ P2); field.
+  - apply (is_derive_ext (fun x => (- x * Rpower ((vget bx 0 + vget bx 1 + vget bx 2) / 3) 3 * PI * nu))); [intro x; reflexivity|].
+    apply (is_derive_ext (fun x => (- Rpower ((vget bx 0 + vget bx 1 + vget bx 2) / 3) 3 * PI * nu) * x + 0 * (x * Rabs x))); [intro x; rring|].
+    match goal with |- is_derive _ ?a ?d => replace d with ((- Rpower ((vget bx 0 + vget bx 1 + vget bx 2) / 3) 3 * PI * nu) + 0 * (2 * Rabs a)); [apply is_derive_lin_abs|] end.
+    rewrite ?(Rpower_3 _ Pd), ?(Rpower_4 _ P0), ?(Rpower_4 _ P1), ?(Rpower_4 _ P2); field.
+  - apply (is_derive_ext (fun x => (0 - vget bx 2 * (Rpower (vget bx 0) 4 + Rpower (vget bx 1) 4) * Rabs x * x * (rho / 64)))); [intro x; reflexivity|].
+    apply (is_derive_ext (fun x => 0 * x + (- (vget bx 2 * (Rpower (vget bx 0) 4 + Rpower (vget bx 1) 4) * (rho / 64))) * (x * Rabs x))); [intro x; rring|].
+    match goal with |- is_derive _ ?a ?d => replace d with (0 + (- (vget bx 2 * (Rpower (vget bx 0) 4 + Rpower (vget bx 1) 4) * (rho / 64))) * (2 * Rabs a)); [apply is_derive_lin_abs|] end.
+    rewrite ?(Rpower_3 _ Pd), ?(Rpower_4 _ P0), ?(Rpower_4 _ P1), ?(Rpower_4 _ P2); field.
+  - apply (is_derive_ext (fun x => 0)); [intro x; reflexivity|].
+    apply (is_derive_ext (fun x => 0 * x + 0 * (x * Rabs x))); [intro x; rring|].
+    match goal with |- is_derive _ ?a ?d => replace d with (0 + 0 * (2 * Rabs a)); [apply is_derive_lin_abs|] end.
+    rewrite ?(Rpower_3 _ Pd), ?(Rpower_4 _ P0), ?(Rpower_4 _ P1), ?(Rpower_4 _ P2); field.
+Qed.
+
+
+Lemma box_B_entry_3 integ (bm : Z -> Z -> R) (bi : Z -> Z -> list R) w bd a0 a1 a2 a3 a4 a5 rho nu sh0 sh1 :
+  let bx := box_dims (bm (Z.rem w sh0) bd) (bi (Z.rem w sh1) bd) in
+  mget 6 (TD._deriv_box_fluid integ bm bi w bd [a0; a1; a2; a3; a4; a5] rho nu sh0 sh1) 3 3
+  = Bdiag third_lit (- lit3pi) (vget bx 0) (vget bx 1) (vget bx 2) a3 rho nu 3.
+Proof.
+  intro bx. rewrite box_B_model_eq. unfold Bdiag.
+  destruct (sgtb nu (sofZ 0)); destruct (sgtb rho (sofZ 0)); destruct (Z.eqb integ 3).
+  - match goal with |- mget 6 ?B 3 3 = _ => assert (E : mget 6 B 3 3 = (1 / 2 * (((0 + lit3pi * ((vget bx 0 + vget bx 1 + vget bx 2) * third_lit) * nu) - rho * vget bx 1 * vget bx 2 * Rabs a3) + ((0 + lit3pi * ((vget bx 0 + vget bx 1 + vget bx 2) * third_lit) * nu) - rho * vget bx 1 * vget bx 2 * Rabs a3)))) by reflexivity; rewrite E end.
+    zred; field.
+  - match goal with |- mget 6 ?B 3 3 = _ => assert (E : mget 6 B 3 3 = ((0 + lit3pi * ((vget bx 0 + vget bx 1 + vget bx 2) * third_lit) * nu) - rho * vget bx 1 * vget bx 2 * Rabs a3)) by reflexivity; rewrite E end.
+    zred; field.
+  - match goal with |- mget 6 ?B 3 3 = _ => assert (E : mget 6 B 3 3 = (1 / 2 * ((0 + lit3pi * ((vget bx 0 + vget bx 1 + vget bx 2) * third_lit) * nu) + (0 + lit3pi * ((vget bx 0 + vget bx 1 + vget bx 2) * third_lit) * nu)))) by reflexivity; rewrite E end.
+    zred; field.
+  - match goal with |- mget 6 ?B 3 3 = _ => assert (E : mget 6 B 3 3 = (0 + lit3pi * ((vget bx 0 + vget bx 1 + vget bx 2) * third_lit) * nu)) by reflexivity; rewrite E end.
+    zred; field.
+  - match goal with |- mget 6 ?B 3 3 = _ => assert (E : mget 6 B 3 3 = (1 / 2 * ((0 - rho * vget bx 1 * vget bx 2 * Rabs a3) + (0 - rho * vget bx 1 * vget bx 2 * Rabs a3)))) by reflexivity; rewrite E end.
+    zred; field.
+  - match goal with |- mget 6 ?B 3 3 = _ => assert (E : mget 6 B 3 3 = (0 - rho * vget bx 1 * vget bx 2 * Rabs a3)) by reflexivity; rewrite E end.
+    zred; field.
+  - match goal with |- mget 6 ?B 3 3 = _ => assert (E : mget 6 B 3 3 = (1 / 2 * (0 + 0))) by reflexivity; rewrite E end.
+    zred; field.
+  - match goal with |- mget 6 ?B 3 3 = _ => assert (E : mget 6 B 3 3 = 0) by reflexivity; rewrite E end.
+    zred; field.
+Qed.
+
+
+Lemma box_F_derive_3 (mass : R) (inertia : list R) a0 a1 a2 a3 a4 a5 rho nu :
+  0 < mass ->
+  let bx := box_dims mass inertia in
+  is_derive (fun x => nth 3 (box_fluid_local mass inertia [a0; a1; a2] [x; a4; a5] rho nu) 0) a3
+            (Bdiag (1 / 3) (3 * PI) (vget bx 0) (vget bx 1) (vget bx 2) a3 rho nu 3).
+Proof.
+  intros Hm bx.
+  destruct (box_dims_pos mass inertia Hm) as (P0 & P1 & P2). fold bx in P0, P1, P2.
+  assert (Pd : 0 < (vget bx 0 + vget bx 1 + vget bx 2) / 3) by lra.
+  unfold Bdiag. unfold box_fluid_local.
+  destruct (sgtb nu (sofZ 0)); destruct (sgtb rho (sofZ 0)); zred.
+  - apply (is_derive_ext (fun x => ((- 3 * x * ((vget bx 0 + vget bx 1 + vget bx 2) / 3) * PI * nu) - 1 / 2 * rho * vget bx 1 * vget bx 2 * Rabs x * x))); [intro x; reflexivity|].
+    apply (is_derive_ext (fun x => (- 3 * ((vget bx 0 + vget bx 1 + vget bx 2) / 3) * PI * nu) * x + (- (1 / 2 * rho * vget bx 1 * vget bx 2)) * (x * Rabs x))); [intro x; rring|].
+    match goal with |- is_derive _ ?a ?d => replace d with ((- 3 * ((vget bx 0 + vget bx 1 + vget bx 2) / 3) * PI * nu) + (- (1 / 2 * rho * vget bx 1 * vget bx 2)) * (2 * Rabs a)); [apply is_derive_lin_abs|] end.
+    rewrite ?(Rpower_3 _ Pd), ?(Rpower_4 _ P0), ?(Rpower_4 _ P1), ?(Rpower_4 _ P2); field.
+  - apply (is_derive_ext (fun x => (- 3 * x * ((vget bx 0 + vget bx 1 + vget bx 2) / 3) * PI * nu))); [intro x; reflexivity|].
+    apply (is_derive_ext (fun x => (- 3 * ((vget bx 0 + vget bx 1 + vget bx 2) / 3) * PI * nu) * x + 0 * (x * Rabs x))); [intro x; rring|].
+    match goal with |- is_derive _ ?a ?d => replace d with ((- 3 * ((vget bx 0 + vget bx 1 + vget bx 2) / 3) * PI * nu) + 0 * (2 * Rabs a)); [apply is_derive_lin_abs|] end.
+    rewrite ?(Rpower_3 _ Pd), ?(Rpower_4 _ P0), ?(Rpower_4 _ P1), ?(Rpower_4 _ P2); field.
+  - apply (is_derive_ext (fun x => (0 - 1 / 2 * rho * vget bx 1 * vget bx 2 * Rabs x * x))); [intro x; reflexivity|].
+    apply (is_derive_ext (fun x => 0 * x + (- (1 / 2 * rho * vget bx 1 * vget bx 2)) * (x * Rabs x))); [intro x; rring|].
+    match goal with |- is_derive _ ?a ?d => replace d with (0 + (- (1 / 2 * rho * vget bx 1 * vget bx 2)) * (2 * Rabs a)); [apply is_derive_lin_abs|] end.
+    rewrite ?(Rpower_3 _ Pd), ?(Rpower_4 _ P0), ?(Rpower_4 _ P1), ?(Rpower_4 _ P2); field.
+  - apply (is_derive_ext (fun x => 0)); [intro x; reflexivity|].
+    apply (is_derive_ext (fun x => 0 * x + 0 * (x * Rabs x))); [intro x; rring|].
+    match goal with |- is_derive _ ?a ?d => replace d with (0 + 0 * (2 * Rabs a)); [apply is_derive_lin_abs|] end.
+    rewrite ?(Rpower_3 _ Pd), ?(Rpower_4 _ P0), ?(Rpower_4 _ P1), ?(Rpower_4 _ P2); field.
+Qed.
+
+
+Lemma box_B_entry_4 integ (bm : Z -> Z -> R) (bi : Z -> Z -> list R) w bd a0 a1 a2 a3 a4 a5 rho nu sh0 sh1 :
+  let bx := box_dims (bm (Z.rem w sh0) bd) (bi (Z.rem w sh1) bd) in
+  mget 6 (TD._deriv_box_fluid integ bm bi w bd [a0; a1; a2; a3; a4; a5] rho nu sh0 sh1) 4 4
+  = Bdiag third_lit (- lit3pi) (vget bx 0) (vget bx 1) (vget bx 2) a4 rho nu 4.
+Proof.
+  intro bx. rewrite box_B_model_eq. unfold Bdiag.
+  destruct (sgtb nu (sofZ 0)); destruct (sgtb rho (sofZ 0)); destruct (Z.eqb integ 3).
+  - match goal with |- mget 6 ?B 4 4 = _ => assert (E : mget 6 B 4 4 = (1 / 2 * (((0 + lit3pi * ((vget bx 0 + vget bx 1 + vget bx 2) * third_lit) * nu) - rho * vget bx 0 * vget bx 2 * Rabs a4) + ((0 + lit3pi * ((vget bx 0 + vget bx 1 + vget bx 2) * third_lit) * nu) - rho * vget bx 0 * vget bx 2 * Rabs a4)))) by reflexivity; rewrite E end.
+    zred; field.
+  - match goal with |- mget 6 ?B 4 4 = _ => assert (E : mget 6 B 4 4 = ((0 + lit3pi * ((vget bx 0 + vget bx 1 + vget bx 2) * third_lit) * nu) - rho * vget bx 0 * vget bx 2 * Rabs a4)) by reflexivity; rewrite E end.
+    zred; field.
+  - match goal with |- mget 6 ?B 4 4 = _ => assert (E : mget 6 B 4 4 = (1 / 2 * ((0 + lit3pi * ((vget bx 0 + vget bx 1 + vget bx 2) * third_lit) * nu) + (0 + lit3pi * ((vget bx 0 + vget bx 1 + vget bx 2) * third_lit) * nu)))) by reflexivity; rewrite E end.
+    zred; field.
+  - match goal with |- mget 6 ?B 4 4 = _ => assert (E : mget 6 B 4 4 = (0 + lit3pi * ((vget bx 0 + vget bx 1 + vget bx 2) * third_lit) * nu)) by reflexivity; rewrite E end.
+    zred; field.
+  - match goal with |- mget 6 ?B 4 4 = _ => assert (E : mget 6 B 4 4 = (1 / 2 * ((0 - rho * vget bx 0 * vget bx 2 * Rabs a4) + (0 - rho * vget bx 0 * vget bx 2 * Rabs a4)))) by reflexivity; rewrite E end.
+    zred; field.
+  - match goal with |- mget 6 ?B 4 4 = _ => assert (E : mget 6 B 4 4 = (0 - rho * vget bx 0 * vget bx 2 * Rabs a4)) by reflexivity; rewrite E end.
+    zred; field.
+  - match goal with |- mget 6 ?B 4 4 = _ => assert (E : mget 6 B 4 4 = (1 / 2 * (0 + 0))) by reflexivity; rewrite E end.
+    zred; field.
+  - match goal with |- mget 6 ?B 4 4 = _ => assert (E : mget 6 B 4 4 = 0) by reflexivity; rewrite E end.
+    zred; field.
+Qed.
+
+
+Lemma box_F_derive_4 (mass : R) (inertia : list R) a0 a1 a2 a3 a4 a5 rho nu :
+  0 < mass ->
+  let bx := box_dims mass inertia in
+  is_derive (fun x => nth 4 (box_fluid_local mass inertia [a0; a1; a2] [a3; x; a5] rho nu) 0) a4
+            (Bdiag (1 / 3) (3 * PI) (vget bx 0) (vget bx 1) (vget bx 2) a4 rho nu 4).
+Proof.
+  intros Hm bx.
+  destruct (box_dims_pos mass inertia Hm) as (P0 & P1 & P2). fold bx in P0, P1, P2.
+  assert (Pd : 0 < (vget bx 0 + vget bx 1 + vget bx 2) / 3) by lra.
+  unfold Bdiag. unfold box_fluid_local.
+  destruct (sgtb nu (sofZ 0)); destruct (sgtb rho (sofZ 0)); zred.
+  - apply (is_derive_ext (fun x => ((- 3 * x * ((vget bx 0 + vget bx 1 + vget bx 2) / 3) * PI * nu) - 1 / 2 * rho * vget bx 0 * vget bx 2 * Rabs x * x))); [intro x; reflexivity|].
+    apply (is_derive_ext (fun x => (- 3 * ((vget bx 0 + vget bx 1 + vget bx 2) / 3) * PI * nu) * x + (- (1 / 2 * rho * vget bx 0 * vget bx 2)) * (x * Rabs x))); [intro x; rring|].
+    match goal with |- is_derive _ ?a ?d => replace d with ((- 3 * ((vget bx 0 + vget bx 1 + vget bx 2) / 3) * PI * nu) + (- (1 / 2 * rho * vget bx 0 * vget bx 2)) * (2 * Rabs a)); [apply is_derive_lin_abs|] end.
+    rewrite ?(Rpower_3 _ Pd), ?(Rpower_4 _ P0), ?(Rpower_4 _ P1), ?(Rpower_4 _ P2); field.
+  - apply (is_derive_ext (fun x => (- 3 * x * ((vget bx 0 + vget bx 1 + vget bx 2) / 3) * PI * nu))); [intro x; reflexivity|].
+    apply (is_derive_ext (fun x => (- 3 * ((vget bx 0 + vget bx 1 + vget bx 2) / 3) * PI * nu) * x + 0 * (x * Rabs x))); [intro x; rring|].
+    match goal with |- is_derive _ ?a ?d => replace d with ((- 3 * ((vget bx 0 + vget bx 1 + vget bx 2) / 3) * PI * nu) + 0 * (2 * Rabs a)); [apply is_derive_lin_abs|] end.
+    rewrite ?(Rpower_3 _ Pd), ?(Rpower_4 _ P0), ?(Rpower_4 _ P1), ?(Rpower_4 _ P2); field.
+  - apply (is_derive_ext (fun x => (0 - 1 / 2 * rho * vget bx 0 * vget bx 2 * Rabs x * x))); [intro x; reflexivity|].
+    apply (is_derive_ext (fun x => 0 * x + (- (1 / 2 * rho * vget bx 0 * vget bx 2)) * (x * Rabs x))); [intro x; rring|].
+    match goal with |- is_derive _ ?a ?d => replace d with (0 + (- (1 / 2 * rho * vget bx 0 * vget bx 2)) * (2 * Rabs a)); [apply is_derive_lin_abs|] end.
+    rewrite ?(Rpower_3 _ Pd), ?(Rpower_4 _ P0), ?(Rpower_4 _ P1), ?(Rpower_4 _ P2); field.
+  - apply (is_derive_ext (fun x => 0)); [intro x; reflexivity|].
+    apply (is_derive_ext (fun x => 0 * x + 0 * (x * Rabs x))); [intro x; rring|].
+    match goal with |- is_derive _ ?a ?d => replace d with (0 + 0 * (2 * Rabs a)); [apply is_derive_lin_abs|] end.
+    rewrite ?(Rpower_3 _ Pd), ?(Rpower_4 _ P0), ?(Rpower_4 _ P1), ?(Rpower_4 _ P2); field.
+Qed.
+
+
+Lemma box_B_entry_5 integ (bm : Z -> Z -> R) (bi : Z -> Z -> list R) w bd a0 a1 a2 a3 a4 a5 rho nu sh0 sh1 :
+  let bx := box_dims (bm (Z.rem w sh0) bd) (bi (Z.rem w sh1) bd) in
+  mget 6 (TD._deriv_box_fluid integ bm bi w bd [a0; a1; a2; a3; a4; a5] rho nu sh0 sh1) 5 5
+  = Bdiag third_lit (- lit3pi) (vget bx 0) (vget bx 1) (vget bx 2) a5 rho nu 5.
+Proof.
+  intro bx. rewrite box_B_model_eq. unfold Bdiag.
+  destruct (sgtb nu (sofZ 0)); destruct (sgtb rho (sofZ 0)); destruct (Z.eqb integ 3).
+  - match goal with |- mget 6 ?B 5 5 = _ => assert (E : mget 6 B 5 5 = (1 / 2 * (((0 + lit3pi * ((vget bx 0 + vget bx 1 + vget bx 2) * third_lit) * nu) - rho * vget bx 0 * vget bx 1 * Rabs a5) + ((0 + lit3pi * ((vget bx 0 + vget bx 1 + vget bx 2) * third_lit) * nu) - rho * vget bx 0 * vget bx 1 * Rabs a5)))) by reflexivity; rewrite E end.
+    zred; field.
+  - match goal with |- mget 6 ?B 5 5 = _ => assert (E : mget 6 B 5 5 = ((0 + lit3pi * ((vget bx 0 + vget bx 1 + vget bx 2) * third_lit) * nu) - rho * vget bx 0 * vget bx 1 * Rabs a5)) by reflexivity; rewrite E end.
+    zred; field.
+  - match goal with |- mget 6 ?B 5 5 = _ => assert (E : mget 6 B 5 5 = (1 / 2 * ((0 + lit3pi * ((vget bx 0 + vget bx 1 + vget bx 2) * third_lit) * nu) + (0 + lit3pi * ((vget bx 0 + vget bx 1 + vget bx 2) * third_lit) * nu)))) by reflexivity; rewrite E end.
+    zred; field.
+  - match goal with |- mget 6 ?B 5 5 = _ => assert (E : mget 6 B 5 5 = (0 + lit3pi * ((vget bx 0 + vget bx 1 + vget bx 2) * third_lit) * nu)) by reflexivity; rewrite E end.
+    zred; field.
+  - match goal with |- mget 6 ?B 5 5 = _ => assert (E : mget 6 B 5 5 = (1 / 2 * ((0 - rho * vget bx 0 * vget bx 1 * Rabs a5) + (0 - rho * vget bx 0 * vget bx 1 * Rabs a5)))) by reflexivity; rewrite E end.
+    zred; field.
+  - match goal with |- mget 6 ?B 5 5 = _ => assert (E : mget 6 B 5 5 = (0 - rho * vget bx 0 * vget bx 1 * Rabs a5)) by reflexivity; rewrite E end.
+    zred; field.
+  - match goal with |- mget 6 ?B 5 5 = _ => assert (E : mget 6 B 5 5 = (1 / 2 * (0 + 0))) by reflexivity; rewrite E end.
+    zred; field.
+  - match goal with |- mget 6 ?B 5 5 = _ => assert (E : mget 6 B 5 5 = 0) by reflexivity; rewrite E end.
+    zred; field.
+Qed.
+
+
+Lemma box_F_derive_5 (mass : R) (inertia : list R) a0 a1 a2 a3 a4 a5 rho nu :
+  0 < mass ->
+  let bx := box_dims mass inertia in
+  is_derive (fun x => nth 5 (box_fluid_local mass inertia [a0; a1; a2] [a3; a4; x] rho nu) 0) a5
+            (Bdiag (1 / 3) (3 * PI) (vget bx 0) (vget bx 1) (vget bx 2) a5 rho nu 5).
+Proof.
+  intros Hm bx.
+  destruct (box_dims_pos mass inertia Hm) as (P0 & P1 & P2). fold bx in P0, P1, P2.
+  assert (Pd : 0 < (vget bx 0 + vget bx 1 + vget bx 2) / 3) by lra.
+  unfold Bdiag. unfold box_fluid_local.
+  destruct (sgtb nu (sofZ 0)); destruct (sgtb rho (sofZ 0)); zred.
+  - apply (is_derive_ext (fun x => ((- 3 * x * ((vget bx 0 + vget bx 1 + vget bx 2) / 3) * PI * nu) - 1 / 2 * rho * vget bx 0 * vget bx 1 * Rabs x * x))); [intro x; reflexivity|].
+    apply (is_derive_ext (fun x => (- 3 * ((vget bx 0 + vget bx 1 + vget bx 2) / 3) * PI * nu) * x + (- (1 / 2 * rho * vget bx 0 * vget bx 1)) * (x * Rabs x))); [intro x; rring|].
+    match goal with |- is_derive _ ?a ?d => replace d with ((- 3 * ((vget bx 0 + vget bx 1 + vget bx 2) / 3) * PI * nu) + (- (1 / 2 * rho * vget bx 0 * vget bx 1)) * (2 * Rabs a)); [apply is_derive_lin_abs|] end.
+    rewrite ?(Rpower_3 _ Pd), ?(Rpower_4 _ P0), ?(Rpower_4 _ P1), ?(Rpower_4 _ P2); field.
+  - apply (is_derive_ext (fun x => (- 3 * x * ((vget bx 0 + vget bx 1 + vget bx 2) / 3) * PI * nu))); [intro x; reflexivity|].
+    apply (is_derive_ext (fun x => (- 3 * ((vget bx 0 + vget bx 1 + vget bx 2) / 3) * PI * nu) * x + 0 * (x * Rabs x))); [intro x; rring|].
+    match goal with |- is_derive _ ?a ?d => replace d with ((- 3 * ((vget bx 0 + vget bx 1 + vget bx 2) / 3) * PI * nu) + 0 * (2 * Rabs a)); [apply is_derive_lin_abs|] end.
+    rewrite ?(Rpower_3 _ Pd), ?(Rpower_4 _ P0), ?(Rpower_4 _ P1), ?(Rpower_4 _ P2); field.
+  - apply (is_derive_ext (fun x => (0 - 1 / 2 * rho * vget bx 0 * vget bx 1 * Rabs x * x))); [intro x; reflexivity|].
+    apply (is_derive_ext (fun x => 0 * x + (- (1 / 2 * rho * vget bx 0 * vget bx 1)) * (x * Rabs x))); [intro x; rring|].
+    match goal with |- is_derive _ ?a ?d => replace d with (0 + (- (1 / 2 * rho * vget bx 0 * vget bx 1)) * (2 * Rabs a)); [apply is_derive_lin_abs|] end.
+    rewrite ?(Rpower_3 _ Pd), ?(Rpower_4 _ P0), ?(Rpower_4 _ P1), ?(Rpower_4 _ P2); field.
+  - apply (is_derive_ext (fun x => 0)); [intro x; reflexivity|].
+    apply (is_derive_ext (fun x => 0 * x + 0 * (x * Rabs x))); [intro x; rring|].
+    match goal with |- is_derive _ ?a ?d => replace d with (0 + 0 * (2 * Rabs a)); [apply is_derive_lin_abs|] end.
+    rewrite ?(Rpower_3 _ Pd), ?(Rpower_4 _ P0), ?(Rpower_4 _ P1), ?(Rpower_4 _ P2); field.
+Qed.
+
+Lemma Bdiag_nu_off k13 k3pi j13 j3pi b0 b1 b2 a rho nu c :
+  sgtb nu (sofZ 0) = false -> Bdiag k13 k3pi b0 b1 b2 a rho nu c = Bdiag j13 j3pi b0 b1 b2 a rho nu c.
+Proof. intro E. unfold Bdiag. rewrite E. reflexivity. Qed.
+
+(* off-diagonal entries of _deriv_box_fluid vanish for every medium and integrator *)
+Lemma box_B_offdiag integ (bm : Z -> Z -> R) (bi : Z -> Z -> list R) w bd a0 a1 a2 a3 a4 a5 rho nu sh0 sh1 (r c : Z) :
+  (0 <= r < 6)%Z -> (0 <= c < 6)%Z -> r <> c ->
+  mget 6 (TD._deriv_box_fluid integ bm bi w bd [a0; a1; a2; a3; a4; a5] rho nu sh0 sh1) r c = 0.
+Proof.
+  intros Hr Hc Hne. rewrite box_B_model_eq.
+  assert (Er : (r = 0 \/ r = 1 \/ r = 2 \/ r = 3 \/ r = 4 \/ r = 5)%Z) by lia.
+  assert (Ec : (c = 0 \/ c = 1 \/ c = 2 \/ c = 3 \/ c = 4 \/ c = 5)%Z) by lia.
+  destruct (sgtb nu (sofZ 0)); destruct (sgtb rho (sofZ 0)); destruct (Z.eqb integ 3);
+    (destruct Er as [-> | [-> | [-> | [-> | [-> | ->]]]]]; destruct Ec as [-> | [-> | [-> | [-> | [-> | ->]]]]];
+     try (exfalso; apply Hne; reflexivity);
+     first [ reflexivity | (transitivity (1 / 2 * (0 + 0)); [reflexivity | field]) ]).
+Qed.
+
+(* B = _deriv_box_fluid and the local inertia-box force of passive._fluid_force (hand model box_fluid_local):
+   (1) every diagonal entry of B has the closed form Bdiag with the source's binary64 constants
+       third_lit (for 1/3) and -lit3pi (for 3*PI);
+   (2) the derivative of force component c in ITS velocity component is Bdiag with the exact 1/3, 3*PI.
+   _partial: the two agree exactly when viscosity <= 0 (box_fluid_deriv_density_exact); with viscosity they
+   differ by those two constants; that the force component does not depend on the other velocity
+   components is by inspection of box_fluid_local, not stated. *)
+Theorem box_fluid_deriv_partial :
+  forall integ (bm : Z -> Z -> R) (bi : Z -> Z -> list R) w bd a0 a1 a2 a3 a4 a5 rho nu sh0 sh1,
+    let mass := bm (Z.rem w sh0) bd in
+    let inertia := bi (Z.rem w sh1) bd in
+    let bx := box_dims mass inertia in
+    let B := TD._deriv_box_fluid integ bm bi w bd [a0; a1; a2; a3; a4; a5] rho nu sh0 sh1 in
+    let F := fun l => box_fluid_local mass inertia (firstn 3 l) (skipn 3 l) rho nu in
+    0 < mass ->
+    (mget 6 B 0 0 = Bdiag third_lit (- lit3pi) (vget bx 0) (vget bx 1) (vget bx 2) a0 rho nu 0 /\
+     is_derive (fun x => nth 0 (F [x; a1; a2; a3; a4; a5]) 0) a0 (Bdiag (1/3) (3*PI) (vget bx 0) (vget bx 1) (vget bx 2) a0 rho nu 0)) /\
+    (mget 6 B 1 1 = Bdiag third_lit (- lit3pi) (vget bx 0) (vget bx 1) (vget bx 2) a1 rho nu 1 /\
+     is_derive (fun x => nth 1 (F [a0; x; a2; a3; a4; a5]) 0) a1 (Bdiag (1/3) (3*PI) (vget bx 0) (vget bx 1) (vget bx 2) a1 rho nu 1)) /\
+    (mget 6 B 2 2 = Bdiag third_lit (- lit3pi) (vget bx 0) (vget bx 1) (vget bx 2) a2 rho nu 2 /\
+     is_derive (fun x => nth 2 (F [a0; a1; x; a3; a4; a5]) 0) a2 (Bdiag (1/3) (3*PI) (vget bx 0) (vget bx 1) (vget bx 2) a2 rho nu 2)) /\
+    (mget 6 B 3 3 = Bdiag third_lit (- lit3pi) (vget bx 0) (vget bx 1) (vget bx 2) a3 rho nu 3 /\
+     is_derive (fun x => nth 3 (F [a0; a1; a2; x; a4; a5]) 0) a3 (Bdiag (1/3) (3*PI) (vget bx 0) (vget bx 1) (vget bx 2) a3 rho nu 3)) /\
+    (mget 6 B 4 4 = Bdiag third_lit (- lit3pi) (vget bx 0) (vget bx 1) (vget bx 2) a4 rho nu 4 /\
+     is_derive (fun x => nth 4 (F [a0; a1; a2; a3; x; a5]) 0) a4 (Bdiag (1/3) (3*PI) (vget bx 0) (vget bx 1) (vget bx 2) a4 rho nu 4)) /\
+    (mget 6 B 5 5 = Bdiag third_lit (- lit3pi) (vget bx 0) (vget bx 1) (vget bx 2) a5 rho nu 5 /\
+     is_derive (fun x => nth 5 (F [a0; a1; a2; a3; a4; x]) 0) a5 (Bdiag (1/3) (3*PI) (vget bx 0) (vget bx 1) (vget bx 2) a5 rho nu 5)).
+Proof.
+  intros integ bm bi w bd a0 a1 a2 a3 a4 a5 rho nu sh0 sh1 mass inertia bx B F Hm.
+  split; [split; [apply box_B_entry_0 | apply (box_F_derive_0 mass inertia a0 a1 a2 a3 a4 a5 rho nu Hm)] |].
+  split; [split; [apply box_B_entry_1 | apply (box_F_derive_1 mass inertia a0 a1 a2 a3 a4 a5 rho nu Hm)] |].
+  split; [split; [apply box_B_entry_2 | apply (box_F_derive_2 mass inertia a0 a1 a2 a3 a4 a5 rho nu Hm)] |].
+  split; [split; [apply box_B_entry_3 | apply (box_F_derive_3 mass inertia a0 a1 a2 a3 a4 a5 rho nu Hm)] |].
+  split; [split; [apply box_B_entry_4 | apply (box_F_derive_4 mass inertia a0 a1 a2 a3 a4 a5 rho nu Hm)] |].
+  split; [apply box_B_entry_5 | apply (box_F_derive_5 mass inertia a0 a1 a2 a3 a4 a5 rho nu Hm)].
+Qed.
+
+(* density-only (or no) medium: B's diagonal is EXACTLY the derivative of the local box force *)
+Theorem box_fluid_deriv_density_exact :
+  forall integ (bm : Z -> Z -> R) (bi : Z -> Z -> list R) w bd a0 a1 a2 a3 a4 a5 rho nu sh0 sh1,
+    let mass := bm (Z.rem w sh0) bd in
+    let inertia := bi (Z.rem w sh1) bd in
+    let B := TD._deriv_box_fluid integ bm bi w bd [a0; a1; a2; a3; a4; a5] rho nu sh0 sh1 in
+    let F := fun l => box_fluid_local mass inertia (firstn 3 l) (skipn 3 l) rho nu in
+    0 < mass -> nu <= 0 ->
+    is_derive (fun x => nth 0 (F [x; a1; a2; a3; a4; a5]) 0) a0 (mget 6 B 0 0) /\
+    is_derive (fun x => nth 1 (F [a0; x; a2; a3; a4; a5]) 0) a1 (mget 6 B 1 1) /\
+    is_derive (fun x => nth 2 (F [a0; a1; x; a3; a4; a5]) 0) a2 (mget 6 B 2 2) /\
+    is_derive (fun x => nth 3 (F [a0; a1; a2; x; a4; a5]) 0) a3 (mget 6 B 3 3) /\
+    is_derive (fun x => nth 4 (F [a0; a1; a2; a3; x; a5]) 0) a4 (mget 6 B 4 4) /\
+    is_derive (fun x => nth 5 (F [a0; a1; a2; a3; a4; x]) 0) a5 (mget 6 B 5 5).
+Proof.
+  intros integ bm bi w bd a0 a1 a2 a3 a4 a5 rho nu sh0 sh1 mass inertia B F Hm Hn.
+  assert (En : sgtb nu (sofZ 0) = false) by (apply Rltb_false; exact Hn).
+  destruct (box_fluid_deriv_partial integ bm bi w bd a0 a1 a2 a3 a4 a5 rho nu sh0 sh1 Hm)
+    as ((E0 & D0) & (E1 & D1) & (E2 & D2) & (E3 & D3) & (E4 & D4) & (E5 & D5)).
+  fold mass inertia in E0, E1, E2, E3, E4, E5, D0, D1, D2, D3, D4, D5.
+  unfold B. rewrite E0, E1, E2, E3, E4, E5.
+  rewrite (Bdiag_nu_off third_lit (- lit3pi) (1/3) (3*PI) _ _ _ a0 rho nu 0 En),
+          (Bdiag_nu_off third_lit (- lit3pi) (1/3) (3*PI) _ _ _ a1 rho nu 1 En),
+          (Bdiag_nu_off third_lit (- lit3pi) (1/3) (3*PI) _ _ _ a2 rho nu 2 En),
+          (Bdiag_nu_off third_lit (- lit3pi) (1/3) (3*PI) _ _ _ a3 rho nu 3 En),
+          (Bdiag_nu_off third_lit (- lit3pi) (1/3) (3*PI) _ _ _ a4 rho nu 4 En),
+          (Bdiag_nu_off third_lit (- lit3pi) (1/3) (3*PI) _ _ _ a5 rho nu 5 En).
+  split; [exact D0 | split; [exact D1 | split; [exact D2 | split; [exact D3 | split; [exact D4 | exact D5]]]]].
 Qed.
